@@ -1,49 +1,1290 @@
+// num: driver of the numeric family (properties C11, C12, C13, C14, C32).
+//
+//	num sema  <out.json>                          numeric types and saturating members as declared by sema
+//	num table <prop> <rows.ndjson> <out.ndjson>   spec -> impl: compare every entry of the TLC-computed 8-bit
+//	                                              tables with the value methods and with scripts on both engines
+//	num trace <prop> <operands.ndjson> <out.ndjson> <pairsPerType>
+//	                                              impl -> spec: execute operations of the wide types on
+//	                                              spec-defined + seeded random operands, log one event per
+//	                                              distinct observation (judged by spec/num/NumJudge.tla)
+//	num meter <rows.ndjson> <out.ndjson>          C32: materialise operand descriptors, run the real operations
+//	                                              with a recording memory gauge (judged by spec/num/BigMeter.tla)
+//
+// The driver only executes and records; every verdict is TLC's. Integers cross the boundary as
+// {"n":neg,"m":[limbs base 2^15, little endian]} (spec/num/Bignum.tla).
 package main
 
 import (
+	"encoding/json"
 	"fmt"
 	"math/big"
+	"math/rand"
+	"os"
+	"reflect"
+	"runtime"
+	"sort"
+	"strconv"
+	"strings"
+	"sync"
 
+	"github.com/onflow/cadence"
 	"github.com/onflow/cadence/common"
 	"github.com/onflow/cadence/interpreter"
+	"github.com/onflow/cadence/sema"
+
 	"verifharness/host"
+	"verifharness/util"
 )
 
-type rec struct{ total uint64 }
+// ---------------------------------------------------------------- integers <-> spec encoding
 
-func (r *rec) MeterMemory(u common.MemoryUsage) error {
+type Z struct {
+	N bool  `json:"n"`
+	M []int `json:"m"`
+}
+
+var mask15 = big.NewInt(0x7fff)
+
+func toZ(x *big.Int) Z {
+	z := Z{N: x.Sign() < 0, M: []int{}}
+	t := new(big.Int).Abs(x)
+	for t.Sign() != 0 {
+		z.M = append(z.M, int(new(big.Int).And(t, mask15).Int64()))
+		t.Rsh(t, 15)
+	}
+	return z
+}
+
+func fromZ(z Z) *big.Int {
+	x := new(big.Int)
+	for i := len(z.M) - 1; i >= 0; i-- {
+		x.Lsh(x, 15)
+		x.Or(x, big.NewInt(int64(z.M[i])))
+	}
+	if z.N {
+		x.Neg(x)
+	}
+	return x
+}
+
+var zero = big.NewInt(0)
+var one = big.NewInt(1)
+
+func pow2(n int) *big.Int { return new(big.Int).Lsh(one, uint(n)) }
+
+// ---------------------------------------------------------------- types
+
+type NT struct {
+	Name   string
+	Signed bool
+	Bits   int // 0 = unbounded
+	Word   bool
+	Scale  int
+}
+
+var allTypes = []NT{
+	{"Int8", true, 8, false, 0}, {"Int16", true, 16, false, 0}, {"Int32", true, 32, false, 0}, {"Int64", true, 64, false, 0},
+	{"Int128", true, 128, false, 0}, {"Int256", true, 256, false, 0}, {"Int", true, 0, false, 0},
+	{"UInt8", false, 8, false, 0}, {"UInt16", false, 16, false, 0}, {"UInt32", false, 32, false, 0}, {"UInt64", false, 64, false, 0},
+	{"UInt128", false, 128, false, 0}, {"UInt256", false, 256, false, 0}, {"UInt", false, 0, false, 0},
+	{"Word8", false, 8, true, 0}, {"Word16", false, 16, true, 0}, {"Word32", false, 32, true, 0}, {"Word64", false, 64, true, 0},
+	{"Word128", false, 128, true, 0}, {"Word256", false, 256, true, 0},
+	{"Fix64", true, 64, false, 8}, {"UFix64", false, 64, false, 8}, {"Fix128", true, 128, false, 24}, {"UFix128", false, 128, false, 24},
+}
+
+func typeByName(n string) NT {
+	for _, t := range allTypes {
+		if t.Name == n {
+			return t
+		}
+	}
+	util.Die("unknown type %s", n)
+	return NT{}
+}
+
+// only used to keep generated operands inside the type (the spec re-checks InRange on every event)
+func (t NT) min() *big.Int {
+	if !t.Signed {
+		return big.NewInt(0)
+	}
+	if t.Bits == 0 {
+		return nil
+	}
+	return new(big.Int).Neg(pow2(t.Bits - 1))
+}
+func (t NT) max() *big.Int {
+	if t.Bits == 0 {
+		return nil
+	}
+	if t.Signed {
+		return new(big.Int).Sub(pow2(t.Bits-1), one)
+	}
+	return new(big.Int).Sub(pow2(t.Bits), one)
+}
+func (t NT) inRange(x *big.Int) bool {
+	if mn := t.min(); mn != nil && x.Cmp(mn) < 0 {
+		return false
+	}
+	if mx := t.max(); mx != nil && x.Cmp(mx) > 0 {
+		return false
+	}
+	return true
+}
+
+// mk builds the interpreter value of type t for the (scaled) integer x. x must be in range.
+func (t NT) mk(x *big.Int) interpreter.Value {
+	c := new(big.Int).Set(x)
+	switch t.Name {
+	case "Int8":
+		return interpreter.NewUnmeteredInt8Value(int8(x.Int64()))
+	case "Int16":
+		return interpreter.NewUnmeteredInt16Value(int16(x.Int64()))
+	case "Int32":
+		return interpreter.NewUnmeteredInt32Value(int32(x.Int64()))
+	case "Int64":
+		return interpreter.NewUnmeteredInt64Value(x.Int64())
+	case "Int128":
+		return interpreter.NewUnmeteredInt128ValueFromBigInt(c)
+	case "Int256":
+		return interpreter.NewUnmeteredInt256ValueFromBigInt(c)
+	case "Int":
+		return interpreter.NewUnmeteredIntValueFromBigInt(c)
+	case "UInt8":
+		return interpreter.NewUnmeteredUInt8Value(uint8(x.Uint64()))
+	case "UInt16":
+		return interpreter.NewUnmeteredUInt16Value(uint16(x.Uint64()))
+	case "UInt32":
+		return interpreter.NewUnmeteredUInt32Value(uint32(x.Uint64()))
+	case "UInt64":
+		return interpreter.NewUnmeteredUInt64Value(x.Uint64())
+	case "UInt128":
+		return interpreter.NewUnmeteredUInt128ValueFromBigInt(c)
+	case "UInt256":
+		return interpreter.NewUnmeteredUInt256ValueFromBigInt(c)
+	case "UInt":
+		return interpreter.NewUnmeteredUIntValueFromBigInt(c)
+	case "Word8":
+		return interpreter.NewUnmeteredWord8Value(uint8(x.Uint64()))
+	case "Word16":
+		return interpreter.NewUnmeteredWord16Value(uint16(x.Uint64()))
+	case "Word32":
+		return interpreter.NewUnmeteredWord32Value(uint32(x.Uint64()))
+	case "Word64":
+		return interpreter.NewUnmeteredWord64Value(x.Uint64())
+	case "Word128":
+		return interpreter.NewUnmeteredWord128ValueFromBigInt(c)
+	case "Word256":
+		return interpreter.NewUnmeteredWord256ValueFromBigInt(c)
+	case "Fix64":
+		return interpreter.NewUnmeteredFix64Value(x.Int64())
+	case "UFix64":
+		return interpreter.NewUnmeteredUFix64Value(x.Uint64())
+	case "Fix128":
+		return interpreter.NewFix128ValueFromBigInt(nil, c)
+	case "UFix128":
+		return interpreter.NewUFix128ValueFromBigInt(nil, c)
+	}
+	util.Die("mk: unknown type %s", t.Name)
+	return nil
+}
+
+// toBig reads the (scaled) integer out of an interpreter value.
+func toBig(v interpreter.Value) *big.Int {
+	switch v := v.(type) {
+	case interpreter.Int8Value:
+		return big.NewInt(int64(v))
+	case interpreter.Int16Value:
+		return big.NewInt(int64(v))
+	case interpreter.Int32Value:
+		return big.NewInt(int64(v))
+	case interpreter.Int64Value:
+		return big.NewInt(int64(v))
+	case interpreter.UInt8Value:
+		return big.NewInt(int64(v))
+	case interpreter.UInt16Value:
+		return big.NewInt(int64(v))
+	case interpreter.UInt32Value:
+		return big.NewInt(int64(v))
+	case interpreter.UInt64Value:
+		return new(big.Int).SetUint64(uint64(v))
+	case interpreter.Word8Value:
+		return big.NewInt(int64(v))
+	case interpreter.Word16Value:
+		return big.NewInt(int64(v))
+	case interpreter.Word32Value:
+		return big.NewInt(int64(v))
+	case interpreter.Word64Value:
+		return new(big.Int).SetUint64(uint64(v))
+	case interpreter.Fix64Value:
+		return big.NewInt(int64(v))
+	case interpreter.UFix64Value:
+		return new(big.Int).SetUint64(uint64(v.UFix64Value))
+	case interpreter.Fix128Value:
+		return new(big.Int).Set(v.ToBigInt())
+	case interpreter.UFix128Value:
+		return new(big.Int).Set(v.ToBigInt())
+	case interpreter.BigNumberValue:
+		return new(big.Int).Set(v.ToBigInt(nil))
+	}
+	util.Die("toBig: unexpected value %T", v)
+	return nil
+}
+
+// ---------------------------------------------------------------- operations
+
+// observation of one call
+type Obs struct {
+	Out string
+	R   *big.Int
+}
+
+func (o Obs) key() string {
+	if o.R == nil {
+		return o.Out
+	}
+	return o.Out + ":" + o.R.String()
+}
+
+func classifyPanic(r any) string {
+	name := ""
+	if e, ok := r.(error); ok {
+		t := reflect.TypeOf(e)
+		for t.Kind() == reflect.Ptr {
+			t = t.Elem()
+		}
+		name = t.Name()
+	} else {
+		name = fmt.Sprintf("%T", r)
+	}
+	return outcomeOfErrorName(name)
+}
+
+func outcomeOfErrorName(name string) string {
+	switch name {
+	case "OverflowError":
+		return "overflow"
+	case "UnderflowError":
+		return "underflow"
+	case "DivisionByZeroError":
+		return "divzero"
+	case "NegativeShiftError":
+		return "negshift"
+	}
+	return "other:" + name
+}
+
+var satMember = map[string]string{
+	"satadd": sema.NumericTypeSaturatingAddFunctionName,
+	"satsub": sema.NumericTypeSaturatingSubtractFunctionName,
+	"satmul": sema.NumericTypeSaturatingMultiplyFunctionName,
+	"satdiv": sema.NumericTypeSaturatingDivideFunctionName,
+}
+
+// direct calls the interpreter's value method.
+func direct(inter *interpreter.Interpreter, t NT, op string, a, b *big.Int) (o Obs) {
+	defer func() {
+		if r := recover(); r != nil {
+			o = Obs{Out: classifyPanic(r), R: new(big.Int)}
+		}
+	}()
+	av := t.mk(a)
+	var res interpreter.Value
+	if op == "neg" {
+		res = av.(interpreter.NumberValue).Negate(inter)
+		return Obs{"ok", toBig(res)}
+	}
+	bv := t.mk(b)
+	switch op {
+	case "add":
+		res = av.(interpreter.NumberValue).Plus(inter, bv.(interpreter.NumberValue))
+	case "sub":
+		res = av.(interpreter.NumberValue).Minus(inter, bv.(interpreter.NumberValue))
+	case "mul":
+		res = av.(interpreter.NumberValue).Mul(inter, bv.(interpreter.NumberValue))
+	case "div":
+		res = av.(interpreter.NumberValue).Div(inter, bv.(interpreter.NumberValue))
+	case "mod":
+		res = av.(interpreter.NumberValue).Mod(inter, bv.(interpreter.NumberValue))
+	case "satadd":
+		res = av.(interpreter.NumberValue).SaturatingPlus(inter, bv.(interpreter.NumberValue))
+	case "satsub":
+		res = av.(interpreter.NumberValue).SaturatingMinus(inter, bv.(interpreter.NumberValue))
+	case "satmul":
+		res = av.(interpreter.NumberValue).SaturatingMul(inter, bv.(interpreter.NumberValue))
+	case "satdiv":
+		res = av.(interpreter.NumberValue).SaturatingDiv(inter, bv.(interpreter.NumberValue))
+	case "and":
+		res = av.(interpreter.IntegerValue).BitwiseAnd(inter, bv.(interpreter.IntegerValue))
+	case "or":
+		res = av.(interpreter.IntegerValue).BitwiseOr(inter, bv.(interpreter.IntegerValue))
+	case "xor":
+		res = av.(interpreter.IntegerValue).BitwiseXor(inter, bv.(interpreter.IntegerValue))
+	case "shl":
+		res = av.(interpreter.IntegerValue).BitwiseLeftShift(inter, bv.(interpreter.IntegerValue))
+	case "shr":
+		res = av.(interpreter.IntegerValue).BitwiseRightShift(inter, bv.(interpreter.IntegerValue))
+	default:
+		util.Die("direct: unknown op %s", op)
+	}
+	return Obs{"ok", toBig(res)}
+}
+
+// lit renders the literal of type t for the scaled integer x.
+func lit(t NT, x *big.Int) string {
+	if t.Scale == 0 {
+		return "(" + x.String() + " as " + t.Name + ")"
+	}
+	s := new(big.Int).Abs(x).String()
+	for len(s) <= t.Scale {
+		s = "0" + s
+	}
+	s = s[:len(s)-t.Scale] + "." + s[len(s)-t.Scale:]
+	if x.Sign() < 0 {
+		s = "-" + s
+	}
+	return "(" + s + " as " + t.Name + ")"
+}
+
+var opSym = map[string]string{"add": "+", "sub": "-", "mul": "*", "div": "/", "mod": "%", "and": "&", "or": "|", "xor": "^", "shl": "<<", "shr": ">>"}
+
+func expr(t NT, op string, a, b *big.Int) string {
+	if op == "neg" {
+		return "-" + lit(t, a)
+	}
+	if m, ok := satMember[op]; ok {
+		return lit(t, a) + "." + m + "(" + lit(t, b) + ")"
+	}
+	return lit(t, a) + " " + opSym[op] + " " + lit(t, b)
+}
+
+// parse the printed form of a cadence number into the scaled integer
+func parseCadence(t NT, v cadence.Value) *big.Int {
+	s := v.String()
+	if t.Scale > 0 {
+		i := strings.IndexByte(s, '.')
+		if i < 0 {
+			util.Die("fixed-point value without point: %s", s)
+		}
+		frac := s[i+1:]
+		for len(frac) < t.Scale {
+			frac += "0"
+		}
+		if len(frac) != t.Scale {
+			util.Die("fixed-point value with unexpected scale: %s", s)
+		}
+		s = s[:i] + frac
+	}
+	x, ok := new(big.Int).SetString(s, 10)
+	if !ok {
+		util.Die("cannot parse script result %q", s)
+	}
+	return x
+}
+
+func outcomeOfClass(class string) string {
+	if class == "ok" {
+		return "ok"
+	}
+	if strings.HasPrefix(class, "user:") {
+		return outcomeOfErrorName(strings.TrimPrefix(class, "user:"))
+	}
+	return "other:" + class
+}
+
+type worker struct {
+	w       *host.World
+	inter   *interpreter.Interpreter
+	scripts int
+}
+
+func newWorker() *worker {
+	inter, err := interpreter.NewInterpreter(nil, common.ScriptLocation{}, &interpreter.Config{})
+	if err != nil {
+		util.Die("NewInterpreter: %v", err)
+	}
+	return &worker{w: host.NewWorld(), inter: inter}
+}
+
+// runExprs evaluates the expressions through one script (array result); when the script fails it
+// bisects, so every expression gets its own observation.
+func (wk *worker) runExprs(t NT, exprs []string, vm bool, out []Obs) {
+	if len(exprs) == 0 {
+		return
+	}
+	var sb strings.Builder
+	sb.WriteString("access(all) fun main(): [AnyStruct] { return [\n")
+	for i, e := range exprs {
+		if i > 0 {
+			sb.WriteString(",\n")
+		}
+		sb.WriteString(e)
+	}
+	sb.WriteString("\n] }")
+	wk.scripts++
+	r := wk.w.Script(sb.String(), vm)
+	if r.Err == nil {
+		arr, ok := r.Value.(cadence.Array)
+		if !ok || len(arr.Values) != len(exprs) {
+			util.Die("script returned %v for %d expressions", r.Value, len(exprs))
+		}
+		for i := range exprs {
+			out[i] = Obs{"ok", parseCadence(t, arr.Values[i])}
+		}
+		return
+	}
+	if len(exprs) == 1 {
+		oc := outcomeOfClass(r.Class)
+		if strings.HasPrefix(oc, "other:") {
+			oc = oc + " [" + firstLine(r.Err.Error()) + "] in " + exprs[0]
+		}
+		out[0] = Obs{oc, new(big.Int)}
+		return
+	}
+	h := len(exprs) / 2
+	wk.runExprs(t, exprs[:h], vm, out[:h])
+	wk.runExprs(t, exprs[h:], vm, out[h:])
+}
+
+func firstLine(s string) string {
+	for _, l := range strings.Split(s, "\n") {
+		l = strings.TrimSpace(l)
+		if strings.HasPrefix(l, "error:") {
+			return l
+		}
+	}
+	if i := strings.IndexByte(s, '\n'); i >= 0 {
+		return s[:i]
+	}
+	return s
+}
+
+// runCases evaluates cases through scripts on one engine: cases predicted to succeed are batched,
+// cases predicted to fail run one per script.
+func (wk *worker) runCases(t NT, exprs []string, predictOK []bool, vm bool) []Obs {
+	out := make([]Obs, len(exprs))
+	var okIdx []int
+	for i := range exprs {
+		if predictOK[i] {
+			okIdx = append(okIdx, i)
+		}
+	}
+	const batch = 256
+	for s := 0; s < len(okIdx); s += batch {
+		e := s + batch
+		if e > len(okIdx) {
+			e = len(okIdx)
+		}
+		es := make([]string, e-s)
+		for j := s; j < e; j++ {
+			es[j-s] = exprs[okIdx[j]]
+		}
+		obs := make([]Obs, e-s)
+		wk.runExprs(t, es, vm, obs)
+		for j := s; j < e; j++ {
+			out[okIdx[j]] = obs[j-s]
+		}
+	}
+	for i := range exprs {
+		if !predictOK[i] {
+			o := make([]Obs, 1)
+			wk.runExprs(t, exprs[i:i+1], vm, o)
+			out[i] = o[0]
+		}
+	}
+	return out
+}
+
+// ---------------------------------------------------------------- sema
+
+type semaType struct {
+	Name   string   `json:"name"`
+	Min    *Z       `json:"min"`
+	Max    *Z       `json:"max"`
+	Scale  int      `json:"scale"`
+	Sat    []string `json:"sat"`
+	Signed bool     `json:"signed"`
+}
+
+func semaTypes() map[string]semaType {
+	res := map[string]semaType{}
+	signed := map[string]bool{}
+	for _, t := range sema.AllSignedIntegerTypes {
+		signed[t.QualifiedString()] = true
+	}
+	for _, t := range sema.AllSignedFixedPointTypes {
+		signed[t.QualifiedString()] = true
+	}
+	for _, ty := range sema.AllNumberTypes {
+		st := semaType{Name: ty.QualifiedString(), Sat: []string{}, Signed: signed[ty.QualifiedString()]}
+		if rt, ok := ty.(sema.IntegerRangedType); ok {
+			if rt.MinInt() != nil {
+				z := toZ(rt.MinInt())
+				st.Min = &z
+			}
+			if rt.MaxInt() != nil {
+				z := toZ(rt.MaxInt())
+				st.Max = &z
+			}
+		}
+		if ft, ok := ty.(sema.FractionalRangedType); ok {
+			st.Scale = int(ft.Scale())
+			// scaled bounds: integer part * 10^scale + fractional part
+			f := new(big.Int).Exp(big.NewInt(10), big.NewInt(int64(ft.Scale())), nil)
+			if ft.MinInt() != nil {
+				x := new(big.Int).Mul(ft.MinInt(), f)
+				if ft.MinInt().Sign() < 0 {
+					x.Sub(x, ft.MinFractional())
+				} else {
+					x.Add(x, ft.MinFractional())
+				}
+				z := toZ(x)
+				st.Min = &z
+			}
+			if ft.MaxInt() != nil {
+				x := new(big.Int).Mul(ft.MaxInt(), f)
+				x.Add(x, ft.MaxFractional())
+				z := toZ(x)
+				st.Max = &z
+			}
+		}
+		if sa, ok := ty.(sema.SaturatingArithmeticType); ok {
+			// a member counts only if it is both supported and resolvable as a member of the type
+			members := ty.GetMembers()
+			add := func(op string, sup bool) {
+				if _, has := members[satMember[op]]; sup && has {
+					st.Sat = append(st.Sat, op)
+				}
+			}
+			add("satadd", sa.SupportsSaturatingAdd())
+			add("satsub", sa.SupportsSaturatingSubtract())
+			add("satmul", sa.SupportsSaturatingMultiply())
+			add("satdiv", sa.SupportsSaturatingDivide())
+		}
+		res[st.Name] = st
+	}
+	return res
+}
+
+func hasSat(st map[string]semaType, t string, op string) bool {
+	for _, m := range st[t].Sat {
+		if m == op {
+			return true
+		}
+	}
+	return false
+}
+
+func cmdSema(out string) {
+	st := semaTypes()
+	var names []string
+	for n := range st {
+		names = append(names, n)
+	}
+	sort.Strings(names)
+	var list []semaType
+	for _, n := range names {
+		list = append(list, st[n])
+	}
+	b, _ := json.Marshal(list)
+	if err := os.WriteFile(out, b, 0o644); err != nil {
+		util.Die("%v", err)
+	}
+}
+
+// ---------------------------------------------------------------- table (8-bit, exhaustive)
+
+type Row struct {
+	T  string `json:"t"`
+	Op string `json:"op"`
+	A  int    `json:"a"`
+	V  []int  `json:"v"`
+}
+
+const (
+	eRange    = 1000
+	eDivZero  = 1001
+	eNegShift = 1002
+)
+
+func codeOf(o Obs) (int, string) {
+	switch o.Out {
+	case "ok":
+		return int(o.R.Int64()), ""
+	case "overflow", "underflow":
+		return eRange, ""
+	case "divzero":
+		return eDivZero, ""
+	case "negshift":
+		return eNegShift, ""
+	}
+	return -1, o.Out
+}
+
+type Mismatch struct {
+	T      string `json:"t"`
+	Op     string `json:"op"`
+	A      int    `json:"a"`
+	B      int    `json:"b"`
+	Expect int    `json:"expect"`
+	Got    int    `json:"got"`
+	Other  string `json:"other,omitempty"`
+	Via    string `json:"via"`
+	Expr   string `json:"expr,omitempty"`
+}
+
+func cmdTable(rowsPath, outPath string) {
+	var rows []Row
+	err := util.ReadLines(rowsPath, func(line []byte) error {
+		var r Row
+		if err := json.Unmarshal(line, &r); err != nil {
+			return err
+		}
+		rows = append(rows, r)
+		return nil
+	})
+	if err != nil {
+		util.Die("reading rows: %v", err)
+	}
+	st := semaTypes()
+	out := util.NewOut(outPath)
+	defer out.Close()
+	var mu sync.Mutex
+	entries, directN, scriptN, scripts, skippedRows, errEntries := 0, 0, 0, 0, 0, 0
+	skipped := map[string]bool{}
+	nw := runtime.NumCPU()
+	workers := make([]*worker, nw)
+	for i := range workers {
+		workers[i] = newWorker()
+	}
+	var wmu sync.Mutex
+	free := append([]*worker(nil), workers...)
+	util.Parallel(len(rows), nw, func(i int) {
+		wmu.Lock()
+		wk := free[len(free)-1]
+		free = free[:len(free)-1]
+		wmu.Unlock()
+		defer func() {
+			wmu.Lock()
+			free = append(free, wk)
+			wmu.Unlock()
+		}()
+		r := rows[i]
+		t := typeByName(r.T)
+		if _, isSat := satMember[r.Op]; isSat && !hasSat(st, r.T, r.Op) {
+			mu.Lock()
+			skippedRows++
+			skipped[r.T+"."+r.Op] = true
+			mu.Unlock()
+			return
+		}
+		lo := 0
+		if t.Signed {
+			lo = -128
+		}
+		a := big.NewInt(int64(r.A))
+		n := len(r.V)
+		exprs := make([]string, n)
+		pred := make([]bool, n)
+		bs := make([]*big.Int, n)
+		var ms []Mismatch
+		ne := 0
+		for k := 0; k < n; k++ {
+			b := big.NewInt(int64(lo + k))
+			if r.Op == "neg" {
+				b = big.NewInt(0)
+			}
+			bs[k] = b
+			exprs[k] = expr(t, r.Op, a, b)
+			pred[k] = r.V[k] < 1000
+			if !pred[k] {
+				ne++
+			}
+			got, other := codeOf(direct(wk.inter, t, r.Op, a, b))
+			if got != r.V[k] || other != "" {
+				ms = append(ms, Mismatch{r.T, r.Op, r.A, int(b.Int64()), r.V[k], got, other, "direct", exprs[k]})
+			}
+		}
+		s0 := wk.scripts
+		for _, vm := range []bool{false, true} {
+			via := "script-interpreter"
+			if vm {
+				via = "script-vm"
+			}
+			obs := wk.runCases(t, exprs, pred, vm)
+			for k := 0; k < n; k++ {
+				got, other := codeOf(obs[k])
+				if got != r.V[k] || other != "" {
+					ms = append(ms, Mismatch{r.T, r.Op, r.A, int(bs[k].Int64()), r.V[k], got, other, via, exprs[k]})
+				}
+			}
+		}
+		for _, m := range ms {
+			out.Write(m)
+		}
+		mu.Lock()
+		entries += n
+		directN += n
+		scriptN += 2 * n
+		errEntries += ne
+		scripts += wk.scripts - s0
+		mu.Unlock()
+	})
+	var sk []string
+	for k := range skipped {
+		sk = append(sk, k)
+	}
+	sort.Strings(sk)
+	out.Write(map[string]any{"summary": true, "rows": len(rows), "entries": entries, "direct": directN, "script_evals": scriptN,
+		"scripts": scripts, "error_entries": errEntries, "skipped_rows": skippedRows, "skipped_members": sk})
+}
+
+// ---------------------------------------------------------------- trace (wide types)
+
+type Operands struct {
+	T       string `json:"t"`
+	Vals    []Z    `json:"vals"`
+	Core    []Z    `json:"core"`
+	Pairs   [][]Z  `json:"pairs"`
+	Amounts []Z    `json:"amounts"`
+}
+
+type Event struct {
+	K    int      `json:"k"`
+	T    string   `json:"t"`
+	Op   string   `json:"op"`
+	A    Z        `json:"a"`
+	B    Z        `json:"b"`
+	Out  string   `json:"out"`
+	R    Z        `json:"r"`
+	Out2 string   `json:"out2"`
+	R2   Z        `json:"r2"`
+	Via  []string `json:"via"`
+	Expr string   `json:"expr"`
+}
+
+var propOps = map[string][]string{
+	"C11": {"add", "sub", "mul", "divmod", "neg"},
+	"C12": {"add", "sub", "mul", "divmod"},
+	"C13": {"satadd", "satsub", "satmul", "satdiv"},
+	"C14": {"and", "or", "xor", "shl", "shr"},
+}
+
+func propHasType(prop string, t NT) bool {
+	switch prop {
+	case "C11":
+		return !t.Word && t.Scale == 0
+	case "C12":
+		return t.Word
+	case "C13":
+		return !t.Word
+	case "C14":
+		return t.Scale == 0
+	}
+	return false
+}
+
+func sortBig(xs []*big.Int) {
+	sort.Slice(xs, func(i, j int) bool { return xs[i].Cmp(xs[j]) < 0 })
+}
+
+func zsToBig(zs []Z) []*big.Int {
+	out := make([]*big.Int, len(zs))
+	for i, z := range zs {
+		out[i] = fromZ(z)
+	}
+	sortBig(out)
+	return out
+}
+
+// random value of the type: uniformly chosen bit length, random bits, random sign
+func randVal(rng *rand.Rand, t NT) *big.Int {
+	width := t.Bits
+	if width == 0 {
+		width = 200
+	}
+	for {
+		n := rng.Intn(width + 1)
+		x := new(big.Int)
+		if n > 0 {
+			x.Rand(rng, pow2(n))
+		}
+		if t.Signed && rng.Intn(2) == 0 {
+			x.Neg(x)
+		}
+		if t.inRange(x) {
+			return x
+		}
+	}
+}
+
+type pair struct{ a, b *big.Int }
+
+type caseT struct {
+	op   string
+	a, b *big.Int
+}
+
+func cmdTrace(prop, opsPath, outPath string, pairsPerType int) {
+	var ops []Operands
+	err := util.ReadLines(opsPath, func(line []byte) error {
+		var o Operands
+		if err := json.Unmarshal(line, &o); err != nil {
+			return err
+		}
+		ops = append(ops, o)
+		return nil
+	})
+	if err != nil {
+		util.Die("reading operands: %v", err)
+	}
+	sort.Slice(ops, func(i, j int) bool { return ops[i].T < ops[j].T })
+	st := semaTypes()
+	seed := util.Seed()
+	nw := runtime.NumCPU()
+
+	// work units: (type, slice of cases)
+	type unit struct {
+		t     NT
+		cases []caseT
+	}
+	var units []unit
+	declared := map[string][]string{}
+	for ti, o := range ops {
+		t := typeByName(o.T)
+		if !propHasType(prop, t) {
+			continue
+		}
+		rng := rand.New(rand.NewSource(seed*1000003 + int64(ti)*7919 + int64(len(prop))))
+		vals := zsToBig(o.Vals)
+		core := zsToBig(o.Core)
+		amounts := zsToBig(o.Amounts)
+		// --- operand pairs: spec pairs, core x core, then seeded random
+		var spec, cross []pair
+		for _, p := range o.Pairs {
+			spec = append(spec, pair{fromZ(p[0]), fromZ(p[1])})
+		}
+		sort.Slice(spec, func(i, j int) bool {
+			if c := spec[i].a.Cmp(spec[j].a); c != 0 {
+				return c < 0
+			}
+			return spec[i].b.Cmp(spec[j].b) < 0
+		})
+		for _, a := range core {
+			for _, b := range core {
+				cross = append(cross, pair{a, b})
+			}
+		}
+		rng.Shuffle(len(spec), func(i, j int) { spec[i], spec[j] = spec[j], spec[i] })
+		rng.Shuffle(len(cross), func(i, j int) { cross[i], cross[j] = cross[j], cross[i] })
+		var pairs []pair
+		// budget split: 35% spec straddle pairs, 35% core cross product, rest random
+		take := func(src []pair, n int) {
+			if n > len(src) {
+				n = len(src)
+			}
+			pairs = append(pairs, src[:n]...)
+		}
+		take(spec, pairsPerType*35/100)
+		take(cross, pairsPerType*35/100)
+		for len(pairs) < pairsPerType {
+			var a, b *big.Int
+			switch rng.Intn(4) {
+			case 0:
+				a, b = randVal(rng, t), randVal(rng, t)
+			case 1:
+				a, b = vals[rng.Intn(len(vals))], randVal(rng, t)
+			case 2:
+				a, b = randVal(rng, t), vals[rng.Intn(len(vals))]
+			default:
+				a, b = vals[rng.Intn(len(vals))], vals[rng.Intn(len(vals))]
+			}
+			pairs = append(pairs, pair{a, b})
+		}
+		var cases []caseT
+		for _, op := range propOps[prop] {
+			if _, isSat := satMember[op]; isSat {
+				if !hasSat(st, t.Name, op) {
+					continue
+				}
+				declared[t.Name] = append(declared[t.Name], op)
+			}
+			if t.Scale > 0 && prop != "C13" {
+				continue
+			}
+			switch op {
+			case "neg":
+				if !t.Signed {
+					continue
+				}
+				for _, a := range vals {
+					cases = append(cases, caseT{op, a, zero})
+				}
+				for i := 0; i < pairsPerType/8; i++ {
+					cases = append(cases, caseT{op, randVal(rng, t), zero})
+				}
+			case "shl", "shr":
+				// every spec amount with a sample of left operands, and random small amounts
+				width := t.Bits
+				if width == 0 {
+					width = 200
+				}
+				nLeft := pairsPerType / (len(amounts) + 1)
+				if nLeft < 6 {
+					nLeft = 6
+				}
+				for _, b := range amounts {
+					for i := 0; i < nLeft; i++ {
+						var a *big.Int
+						if i%2 == 0 {
+							a = vals[rng.Intn(len(vals))]
+						} else {
+							a = randVal(rng, t)
+						}
+						cases = append(cases, caseT{op, a, b})
+					}
+				}
+				for i := 0; i < pairsPerType/2; i++ {
+					b := big.NewInt(int64(rng.Intn(width + 2)))
+					if !t.inRange(b) {
+						continue
+					}
+					cases = append(cases, caseT{op, randVal(rng, t), b})
+				}
+			default:
+				for _, p := range pairs {
+					cases = append(cases, caseT{op, p.a, p.b})
+				}
+			}
+		}
+		// split into units of ~2000 cases for parallelism
+		for s := 0; s < len(cases); s += 2000 {
+			e := s + 2000
+			if e > len(cases) {
+				e = len(cases)
+			}
+			units = append(units, unit{t, cases[s:e]})
+		}
+	}
+
+	results := make([][]Event, len(units))
+	scriptsPer := make([]int, len(units))
+	obsPer := make([]int, len(units))
+	util.Parallel(len(units), nw, func(ui int) {
+		wk := newWorker()
+		u := units[ui]
+		t := u.t
+		// each case expands to one or two calls
+		type call struct{ op string }
+		n := len(u.cases)
+		ops1 := make([]string, n) // first call op
+		ops2 := make([]string, n) // second call op or ""
+		for i, c := range u.cases {
+			switch c.op {
+			case "divmod":
+				ops1[i], ops2[i] = "div", "mod"
+			case "satdiv":
+				ops1[i] = "satdiv"
+				if t.Scale == 0 {
+					ops2[i] = "mod"
+				}
+			default:
+				ops1[i] = c.op
+			}
+		}
+		d1 := make([]Obs, n)
+		d2 := make([]Obs, n)
+		var exprs []string
+		var pred []bool
+		idx1 := make([]int, n)
+		idx2 := make([]int, n)
+		for i, c := range u.cases {
+			d1[i] = direct(wk.inter, t, ops1[i], c.a, c.b)
+			idx1[i] = len(exprs)
+			exprs = append(exprs, expr(t, ops1[i], c.a, c.b))
+			pred = append(pred, d1[i].Out == "ok")
+			idx2[i] = -1
+			if ops2[i] != "" {
+				d2[i] = direct(wk.inter, t, ops2[i], c.a, c.b)
+				idx2[i] = len(exprs)
+				exprs = append(exprs, expr(t, ops2[i], c.a, c.b))
+				pred = append(pred, d2[i].Out == "ok")
+			}
+		}
+		si := wk.runCases(t, exprs, pred, false)
+		sv := wk.runCases(t, exprs, pred, true)
+		var evs []Event
+		for i, c := range u.cases {
+			type ob struct {
+				o1, o2 Obs
+				via    string
+			}
+			all := []ob{{d1[i], d2[i], "direct"}}
+			get2 := func(s []Obs) Obs {
+				if idx2[i] < 0 {
+					return Obs{}
+				}
+				return s[idx2[i]]
+			}
+			all = append(all, ob{si[idx1[i]], get2(si), "script-interpreter"}, ob{sv[idx1[i]], get2(sv), "script-vm"})
+			seen := map[string]int{}
+			for _, o := range all {
+				key := o.o1.key() + "|" + o.o2.key()
+				if j, ok := seen[key]; ok {
+					evs[j].Via = append(evs[j].Via, o.via)
+					continue
+				}
+				ev := Event{T: t.Name, Op: c.op, A: toZ(c.a), B: toZ(c.b), Out: o.o1.Out, R: toZ(o.o1.R), Via: []string{o.via},
+					Expr: exprs[idx1[i]], R2: toZ(zero)}
+				if idx2[i] >= 0 {
+					ev.Out2 = o.o2.Out
+					ev.R2 = toZ(o.o2.R)
+				}
+				seen[key] = len(evs)
+				evs = append(evs, ev)
+			}
+		}
+		results[ui] = evs
+		scriptsPer[ui] = wk.scripts
+		obsPer[ui] = 3 * len(exprs)
+	})
+	out := util.NewOut(outPath)
+	defer out.Close()
+	k, scripts, obs, cases := 0, 0, 0, 0
+	perType := map[string]int{}
+	for ui, evs := range results {
+		for _, ev := range evs {
+			k++
+			ev.K = k
+			out.Write(ev)
+			perType[ev.T+"."+ev.Op]++
+		}
+		scripts += scriptsPer[ui]
+		obs += obsPer[ui]
+		cases += len(units[ui].cases)
+	}
+	out.Write(map[string]any{"summary": true, "events": k, "cases": cases, "observations": obs, "scripts": scripts,
+		"per_type_op": perType, "declared_sat": declared})
+}
+
+// ---------------------------------------------------------------- meter (C32)
+
+type recGauge struct{ big uint64 }
+
+func (g *recGauge) MeterMemory(u common.MemoryUsage) error {
 	if u.Kind == common.MemoryKindBigInt {
-		r.total += u.Amount
+		g.big += u.Amount
 	}
 	return nil
 }
 
-func main() {
-	g := &rec{}
-	inter, err := interpreter.NewInterpreter(nil, common.ScriptLocation{}, &interpreter.Config{MemoryGauge: g})
-	if err != nil {
-		panic(err)
+type Desc struct {
+	W    int    `json:"w"`
+	Kind string `json:"kind"`
+	Neg  bool   `json:"neg"`
+}
+
+type MeterRow struct {
+	T  string `json:"t"`
+	Op string `json:"op"`
+	A  Desc   `json:"a"`
+	Bs []Desc `json:"bs"`
+	Ns []int  `json:"ns"`
+}
+
+type MeterEvent struct {
+	K       int    `json:"k"`
+	T       string `json:"t"`
+	Op      string `json:"op"`
+	A       Desc   `json:"a"`
+	B       Desc   `json:"b"`
+	N       int    `json:"n"`
+	WA      int    `json:"wa"`
+	WB      int    `json:"wb"`
+	Out     string `json:"out"`
+	Metered Z      `json:"metered"`
+	Words   int    `json:"words"`
+	Cmp     int    `json:"cmp"` // sign of a - b (signed comparison of the operands)
+}
+
+// materialise: the value described by (w words, kind, sign)
+//
+//	max: 2^(64w) - 1 (largest w-word magnitude)   min: 2^(64(w-1)) (smallest)   rnd: seeded random w-word magnitude
+func materialise(d Desc, rng *rand.Rand) *big.Int {
+	if d.W == 0 {
+		return new(big.Int)
 	}
-	a := interpreter.NewUnmeteredInt128ValueFromBigInt(big.NewInt(1))
-	b := interpreter.NewUnmeteredInt128ValueFromBigInt(big.NewInt(7))
-	fmt.Println(a.BitwiseLeftShift(inter, b), g.total)
-	x := interpreter.NewUnmeteredIntValueFromBigInt(new(big.Int).Lsh(big.NewInt(1), 190))
-	y := interpreter.NewUnmeteredIntValueFromInt64(63)
-	g.total = 0
-	fmt.Println(x.BitwiseRightShift(inter, y), g.total)
-	w := host.NewWorld()
-	for _, vm := range []bool{false, true} {
-		r := w.Script(`access(all) fun main(): [AnyStruct] { return [(1 as Int128) << 7, (-1 as Int128) >> 18446744073709551616, (-2658455991569831745807614120560689151 as Int128) << 15, (1 as Int128) << 15, (255 as Int128) << 8] }`, vm)
-		fmt.Println(r.Value, r.Err, r.Class)
-		r = w.Script(`access(all) fun main(): AnyStruct { return (100 as Int8) + 100 }`, vm)
-		fmt.Println(r.Value, r.Class)
-		r = w.Script(`access(all) fun main(): AnyStruct { return (100 as Int8) / 0 }`, vm)
-		fmt.Println(r.Value, r.Class)
-		r = w.Script(`access(all) fun main(): AnyStruct { return (100 as Int8) << -1 }`, vm)
-		fmt.Println(r.Value, r.Class)
-		r = w.Script(`access(all) fun main(): AnyStruct { return (0 as UInt8) - 1 }`, vm)
-		fmt.Println(r.Value, r.Class)
-		r = w.Script(`access(all) fun main(): AnyStruct { return (1 as Int) << 18446744073709551616 }`, vm)
-		fmt.Println(r.Value, r.Class)
+	var x *big.Int
+	switch d.Kind {
+	case "max":
+		x = new(big.Int).Sub(pow2(64*d.W), one)
+	case "min":
+		x = pow2(64 * (d.W - 1))
+	case "rnd":
+		// below 2^(64w-1) (in range for the signed fixed-width types), top word non-zero
+		x = new(big.Int).Rand(rng, pow2(64*d.W-1))
+		x.SetBit(x, 64*d.W-2-rng.Intn(62), 1)
+	default:
+		util.Die("unknown operand kind %q", d.Kind)
+	}
+	if d.Neg {
+		x.Neg(x)
+	}
+	return x
+}
+
+func cmdMeter(rowsPath, outPath string) {
+	var rows []MeterRow
+	err := util.ReadLines(rowsPath, func(line []byte) error {
+		var r MeterRow
+		if err := json.Unmarshal(line, &r); err != nil {
+			return err
+		}
+		rows = append(rows, r)
+		return nil
+	})
+	if err != nil {
+		util.Die("reading rows: %v", err)
+	}
+	sort.SliceStable(rows, func(i, j int) bool {
+		ki := fmt.Sprintf("%s|%s|%03d|%s|%v", rows[i].T, rows[i].Op, rows[i].A.W, rows[i].A.Kind, rows[i].A.Neg)
+		kj := fmt.Sprintf("%s|%s|%03d|%s|%v", rows[j].T, rows[j].Op, rows[j].A.W, rows[j].A.Kind, rows[j].A.Neg)
+		return ki < kj
+	})
+	seed := util.Seed()
+	results := make([][]MeterEvent, len(rows))
+	util.Parallel(len(rows), runtime.NumCPU(), func(ri int) {
+		row := rows[ri]
+		t := typeByName(row.T)
+		rng := rand.New(rand.NewSource(seed*999983 + int64(ri)))
+		g := &recGauge{}
+		inter, err := interpreter.NewInterpreter(nil, common.ScriptLocation{}, &interpreter.Config{MemoryGauge: g})
+		if err != nil {
+			util.Die("NewInterpreter: %v", err)
+		}
+		a := materialise(row.A, rng)
+		if !t.inRange(a) {
+			util.Die("descriptor %+v is outside %s", row.A, row.T)
+		}
+		var evs []MeterEvent
+		run := func(b *big.Int, bd Desc, n int) {
+			if !t.inRange(b) {
+				util.Die("descriptor %+v / amount %d is outside %s", bd, n, row.T)
+			}
+			ev := MeterEvent{T: row.T, Op: row.Op, A: row.A, B: bd, N: n, WA: len(a.Bits()), WB: len(b.Bits()), Cmp: a.Cmp(b)}
+			func() {
+				defer func() {
+					if r := recover(); r != nil {
+						ev.Out = classifyPanic(r)
+						ev.Metered = toZ(new(big.Int).SetUint64(g.big))
+					}
+				}()
+				av, bv := t.mk(a), t.mk(b)
+				g.big = 0
+				var res interpreter.Value
+				switch row.Op {
+				case "add":
+					res = av.(interpreter.NumberValue).Plus(inter, bv.(interpreter.NumberValue))
+				case "sub":
+					res = av.(interpreter.NumberValue).Minus(inter, bv.(interpreter.NumberValue))
+				case "mul":
+					res = av.(interpreter.NumberValue).Mul(inter, bv.(interpreter.NumberValue))
+				case "div":
+					res = av.(interpreter.NumberValue).Div(inter, bv.(interpreter.NumberValue))
+				case "mod":
+					res = av.(interpreter.NumberValue).Mod(inter, bv.(interpreter.NumberValue))
+				case "neg":
+					res = av.(interpreter.NumberValue).Negate(inter)
+				case "and":
+					res = av.(interpreter.IntegerValue).BitwiseAnd(inter, bv.(interpreter.IntegerValue))
+				case "or":
+					res = av.(interpreter.IntegerValue).BitwiseOr(inter, bv.(interpreter.IntegerValue))
+				case "xor":
+					res = av.(interpreter.IntegerValue).BitwiseXor(inter, bv.(interpreter.IntegerValue))
+				case "shl":
+					res = av.(interpreter.IntegerValue).BitwiseLeftShift(inter, bv.(interpreter.IntegerValue))
+				case "shr":
+					res = av.(interpreter.IntegerValue).BitwiseRightShift(inter, bv.(interpreter.IntegerValue))
+				default:
+					util.Die("meter: unknown op %s", row.Op)
+				}
+				m := g.big
+				ev.Out = "ok"
+				ev.Metered = toZ(new(big.Int).SetUint64(m))
+				ev.Words = len(toBigRaw(res).Bits())
+			}()
+			evs = append(evs, ev)
+		}
+		if row.Op == "shl" || row.Op == "shr" {
+			for _, n := range row.Ns {
+				run(big.NewInt(int64(n)), Desc{Kind: "amount"}, n)
+			}
+		} else if row.Op == "neg" {
+			run(new(big.Int), Desc{Kind: "none"}, 0)
+		} else {
+			for _, bd := range row.Bs {
+				run(materialise(bd, rng), bd, 0)
+			}
+		}
+		results[ri] = evs
+	})
+	out := util.NewOut(outPath)
+	defer out.Close()
+	k := 0
+	for _, evs := range results {
+		for _, ev := range evs {
+			k++
+			ev.K = k
+			if ev.Metered.M == nil {
+				ev.Metered = toZ(zero)
+			}
+			out.Write(ev)
+		}
+	}
+	out.Write(map[string]any{"summary": true, "events": k, "rows": len(rows)})
+}
+
+// the result's own big.Int (no copy), to read len(Bits())
+func toBigRaw(v interpreter.Value) *big.Int {
+	switch v := v.(type) {
+	case interpreter.IntValue:
+		return v.BigInt
+	case interpreter.UIntValue:
+		return v.BigInt
+	case interpreter.Int128Value:
+		return v.BigInt
+	case interpreter.Int256Value:
+		return v.BigInt
+	case interpreter.UInt128Value:
+		return v.BigInt
+	case interpreter.UInt256Value:
+		return v.BigInt
+	case interpreter.Word128Value:
+		return v.BigInt
+	case interpreter.Word256Value:
+		return v.BigInt
+	}
+	util.Die("toBigRaw: %T is not big.Int backed", v)
+	return nil
+}
+
+func main() {
+	if len(os.Args) < 2 {
+		util.Die("usage: num sema|table|trace|meter ...")
+	}
+	switch os.Args[1] {
+	case "sema":
+		cmdSema(os.Args[2])
+	case "table":
+		cmdTable(os.Args[3], os.Args[4])
+	case "trace":
+		n, err := strconv.Atoi(os.Args[5])
+		if err != nil {
+			util.Die("pairsPerType: %v", err)
+		}
+		cmdTrace(os.Args[2], os.Args[3], os.Args[4], n)
+	case "meter":
+		cmdMeter(os.Args[2], os.Args[3])
+	default:
+		util.Die("unknown sub-command %s", os.Args[1])
 	}
 }
